@@ -30,3 +30,7 @@ check("C14", "exploration",
       "Every reaction of Rxn(A14,2) (quick: 8-molecule alphabet + all one-molecule-per-side reactions of the 18-molecule alphabet) with a composition-determined baseline is re-run in every member of its finite spelling/order family (rooted, all atom permutations <=4 atoms, kekulised, explicit-H, three atom-mapped spellings, all side permutations); same verdict and same added molecules up to the redox template vocabulary.",
       "'All equivalent spellings' = the finite Spell family; variants run as one batch (batch independence is C06).",
       "bounded-exhaustive enumeration of spelling/order families, differential oracle vs canonical spelling", "DESIGN.md 4/C14")
+check("C19", "model_checking",
+      "Explicit-state BFS over the ordered record list of a RuleImputeManager: alphabet of 8 adds (valid, invalid, same formula, same SMILES, charged, salt, heavy, empty), all 64 ordered bulk pairs and 8 removes; depth 3 (thorough 4) from empty, depth 1 (thorough 2) from both shipped databases and from a DataFrame source; every transition runs the real method and is compared with a plain-list model, the invariant is evaluated in every state, every state's discovering history is replayed on a single object.",
+      "State = record list only (validated by the single-object replays); SMILES validity/composition are RDKit's. Shipped-database duplicates are recorded known findings.",
+      "explicit-state breadth-first search over real objects with a reference model (step oracle + state invariant)", "DESIGN.md 4/C19")
